@@ -214,6 +214,51 @@ def literal_params(parser, names):
 
 
 # ---------------------------------------------------------------------------------------------------------------
+def linear_abstraction(assertions):
+    """Replace every non-linear sub-term (product of >= 2 non-numeral factors, quotient by a non-numeral, power) by a fresh real,
+    the same fresh real for the same term up to commutativity of the product.  Every model of the original assertions extends to a
+    model of the abstraction, so UNSAT of the abstraction (linear real arithmetic, decided quickly) implies UNSAT of the original;
+    SAT of the abstraction says nothing."""
+    cache, atoms = {}, {}
+
+    def atom(key):
+        if key not in atoms:
+            atoms[key] = z3.Real('nl!%d' % len(atoms))
+        return atoms[key]
+
+    def go(e):
+        i = e.get_id()
+        if i in cache:
+            return cache[i]
+        if not z3.is_app(e) or e.num_args() == 0:
+            cache[i] = e
+            return e
+        kids = [go(c) for c in e.children()]
+        k = e.decl().kind()
+        if k == z3.Z3_OP_MUL:
+            num = [c for c in kids if z3.is_rational_value(c) or z3.is_int_value(c)]
+            non = [c for c in kids if not (z3.is_rational_value(c) or z3.is_int_value(c))]
+            if len(non) <= 1:
+                r = e.decl()(*kids) if len(kids) > 1 else kids[0]
+            else:
+                a = atom(('mul',) + tuple(sorted(c.sexpr() for c in non)))
+                r = a
+                for c in num:
+                    r = c * r
+        elif k == z3.Z3_OP_DIV:
+            if z3.is_rational_value(kids[1]) or z3.is_int_value(kids[1]):
+                r = kids[0] / kids[1]
+            else:
+                r = atom(('div', kids[0].sexpr(), kids[1].sexpr()))
+        elif k == z3.Z3_OP_POWER:
+            r = atom(('pow', kids[0].sexpr(), kids[1].sexpr()))
+        else:
+            r = e.decl()(*kids)
+        cache[i] = r
+        return r
+    return [go(a) for a in assertions], len(atoms)
+
+
 class Decider:
     """Solver ladder with bookkeeping. decide() returns ('unsat'|'sat'|'unknown', model_or_None)."""
 
@@ -221,6 +266,7 @@ class Decider:
         self.chk = chk
         self.timeout_ms = timeout_ms
         self.use_cvc5 = use_cvc5
+        self.use_abstraction = True
         self.rungs = {}
         self.solver_s = 0.0
         self.queries = 0
@@ -235,6 +281,30 @@ class Decider:
 
     def decide(self, assertions, timeout_ms=None, ladder=True):
         timeout_ms = timeout_ms or self.timeout_ms
+        if ladder and self.use_abstraction:
+            # rung 0: the linear abstraction (sound for UNSAT only)
+            t0 = time.time()
+            try:
+                # definitions are substituted and products distributed over sums first, so that an identity which needs
+                # distributivity (interest paid on total deposits = sum of interest received) is visible to linear reasoning
+                g = z3.Goal()
+                g.add(assertions)
+                pre = z3.Then('simplify', 'solve-eqs', z3.With('simplify', som=True))(g)
+                forms = [f for sub in pre for f in sub] if len(pre) == 1 else None
+                ab, n_atoms = linear_abstraction(forms if forms is not None else list(assertions))
+                if forms is not None and len(forms) == 1 and z3.is_false(forms[0]):
+                    self._note('z3-linear-abstraction', time.time() - t0)
+                    return 'unsat', None
+                if n_atoms:
+                    s0 = z3.SolverFor('QF_LRA')
+                    s0.set('timeout', min(timeout_ms, 10000))
+                    s0.add(ab)
+                    r0 = s0.check()
+                    self._note('z3-linear-abstraction', time.time() - t0)
+                    if r0 == z3.unsat:
+                        return 'unsat', None
+            except z3.Z3Exception:
+                pass
         t0 = time.time()
         s = z3.Solver()
         s.set('timeout', timeout_ms)
